@@ -50,7 +50,7 @@ def gen_grammars(prop, tier, n, profile):
         k = g.key()
         if k in seen: return
         seen.add(k); out.append(g)
-    core = gg.core_grammars(wide=(profile in ('plain', 'allclasses')))
+    core = gg.core_grammars(wide=(profile in ('plain', 'allclasses')), heavy=(tier == 'thorough'))
     if profile == 'plain':
         for g in core: add(g)
         for g in core[:12]: add(gg.shuffle_symbols(g, rnd))
@@ -311,6 +311,19 @@ def c14(tier):
     gs = gen_grammars('C14', tier, 160 if q else 2000, 'values') + gen_grammars('C14r', tier, 96 if q else 1000, 'recovery')
     merge(ck, run_pipeline('C14', tier, gs, cfg, flavour='asan' if not q else 'clang'))
     merge(ck, common.pmap(pipeline.worker, deep_specs('C14', tier)))
+    # the fixed-size (cvector) stacks: every value type trivially destructible and the text in a cstring_buffer
+    rnd = random.Random(common.seed() * 1409 + 14)
+    cv = []
+    pool = [g for g in gg.core_grammars() if ref_lr1.build(g).lr1] + [g for g in gg.err_core() if gg.classify(ref_lr1.build(g)) in ('lr1', 'sr')]
+    rnd.shuffle(pool)
+    for g in pool[: (12 if q else 60)]:
+        g = gg.clone(g); g.vtypes = ['T'] * len(g.nts); g.tvtype = 'T'; g.ttstate = rnd.random() < 0.5
+        for j, t in enumerate(g.terms):
+            if rnd.random() < 0.5: t.typed = True
+        g.rules = [gg.Rule(r.lhs, r.rhs, r.prec, 'f') for r in g.rules]
+        cv.append(g)
+    cfg2 = {'modes': [11], 'exh_cap': 120, 'exh_len': 4, 'n_rand': 30, 'n_mut': 40, 'long': (8, 16), 'n_ws': 6, 'n_raw': 4, 'max_len': 18}
+    merge(ck, run_pipeline('C14', tier, cv, cfg2, per_tu=3))
     ck.cov['rule'] = ('grammars with tracked value types (copyable and move-only), typed terms, default functors and error rules; every value gets a unique id in a registry; '
                       'after each parse (success, failure, recovery) the registry must balance: no object or payload alive, no library-made copy, no id consumed twice, '
                       'no moved-from argument; distinct_nontrivial = distinct (grammar,input) runs that created >= 2 values')
